@@ -46,7 +46,7 @@ ASSUMPTIONS = [
 RULE = ("networks of 2..6 nodes (8 thorough), <= 12 arcs (16), costs -3..6 built as reduced cost >= 0 plus a potential "
         "difference (no negative cycle), capacities 0..6 with zero-capacity arcs, parallel arcs of equal and different "
         "cost, anti-parallel pairs, arcs into the source / out of the sink, self-loops, unreachable parts, terminals "
-        "without arcs, int/str labels; demands 0, partial, saturating and infeasible; balanced multi-supply vectors "
+        "without arcs, int/str labels and odd hashables (None, 0, '', (), frozenset(), -1, 0.5, tuples); demands 0, partial, saturating and infeasible; balanced multi-supply vectors "
         "(plus unbalanced and capacity-infeasible ones) for network_simplex, which also receives every s-t instance; "
         "rectangular assignment matrices 0..5 x 0..5; non-trivial = the model made >= 2 augmentations or used a "
         "backward residual arc; distinct by canonical (function, instance)")
@@ -250,6 +250,12 @@ def edge_cases():
     # DESIGN §4 C09 witness: one cost per node pair
     yield {"fn": "min_cost_flow", "graph": [[1, [[0, 2, 2], [0, 3, 5]]], [0, [[1, 1, 5], [1, 4, 5]]]],
            "source": 0, "sink": 1, "demand": 4}
+    # a node labelled None: inner node, source, sink
+    yield {"fn": "min_cost_flow", "graph": [["s", [[None, 2, 1]]], [None, [["t", 2, 1]]]], "source": "s", "sink": "t", "demand": 2}
+    yield {"fn": "min_cost_flow", "graph": [[None, [["a", 2, 1]]], ["a", [["t", 2, 1]]]], "source": None, "sink": "t", "demand": 2}
+    yield {"fn": "min_cost_flow", "graph": [["s", [["a", 2, 1]]], ["a", [[None, 2, 1]]]], "source": "s", "sink": None, "demand": 1}
+    yield {"fn": "min_cost_flow", "graph": [[0, [[{"tuple": []}, 2, 3], ["", 1, 0]]], [{"tuple": []}, [[{"frozenset": []}, 2, -1]]],
+                                            ["", [[{"frozenset": []}, 3, 4]]]], "source": 0, "sink": {"frozenset": []}, "demand": 3}
     yield {"fn": "network_simplex", "n": 3, "arcs": [[0, 1, 10, 2], [1, 2, 15, 1], [0, 2, 5, 3]], "supplies": [10, 0, -10]}
     yield {"fn": "network_simplex", "n": 2, "arcs": [], "supplies": [0, 0]}
     yield {"fn": "network_simplex", "n": 2, "arcs": [], "supplies": [1, -1]}
@@ -382,8 +388,8 @@ def impl(case):
     if fn == "min_cost_flow":
         from solvor.flow import min_cost_flow
         g = fc.graph_dict(case["graph"])
-        order = _set_order(g, case["source"], case["sink"])
-        return {"order": order, **_res(min_cost_flow(g, case["source"], case["sink"], case["demand"]))}
+        order = _set_order(g, fc.dec(case["source"]), fc.dec(case["sink"]))
+        return {"order": order, **_res(min_cost_flow(g, fc.dec(case["source"]), fc.dec(case["sink"]), case["demand"]))}
     if fn == "network_simplex":
         from solvor.network_simplex import network_simplex
         flag = impl_ns_flag(case)
@@ -609,9 +615,9 @@ def evaluate(cases, ctx=None, twins_too=True):
     for ci, c in enumerate(cases):
         fn = c["fn"]
         if fn == "min_cost_flow":
-            order = _set_order(fc.graph_dict(c["graph"]), c["source"], c["sink"])
+            order = _set_order(fc.graph_dict(c["graph"]), fc.dec(c["source"]), fc.dec(c["sink"]))
             idx, raw = mcf_instance(c, order)
-            s, t, d = idx[c["source"]], idx[c["sink"]], c["demand"]
+            s, t, d = idx[fc.dec(c["source"])], idx[fc.dec(c["sink"])], c["demand"]
             if s != t and d >= 0 and twins_too:   # every s-t instance also goes to network_simplex (common instances)
                 sup = [0] * len(idx)
                 sup[s] += d
@@ -650,7 +656,7 @@ def evaluate(cases, ctx=None, twins_too=True):
                     tx, tproblem = impl_flow(touts[twin_of[ci]], arcs, {i: i for i in range(len(idx))})
                     impls.append(tx)
                     problems.append(tproblem)
-                reqs.append(["mcf_st", len(idx), arcs, idx[c["source"]], idx[c["sink"]], c["demand"], impls])
+                reqs.append(["mcf_st", len(idx), arcs, idx[fc.dec(c["source"])], idx[fc.dec(c["sink"])], c["demand"], impls])
             else:
                 reqs.append(["mcf_ts", c["n"], arcs, c["supplies"], impls])
         meta[ci] = meta[ci] + (arcs, problems)
@@ -862,9 +868,13 @@ def judge(ctx, case, out, tout, meta, reply):
         raise Infra(f"C09: harness and Lean disagree on the node-pair feature of {case}")
     if fn == "min_cost_flow":
         suffix = ":antiparallel_or_mixed_parallel" if feature else ""
+        if None in idx:
+            ctx.count("min_cost_flow:input:none_label")
+            if not feature:   # (fixed by proposed_fixes/C09_mcf_none_label.diff: None was both a label and "no parent")
+                suffix = ":none_label"
         if feature:
             ctx.count("min_cost_flow:input:antiparallel_or_mixed_parallel")
-        terminal_isolated = not any(idx[case["sink"]] in (a[0], a[1]) for a in arcs)
+        terminal_isolated = not any(idx[fc.dec(case["sink"])] in (a[0], a[1]) for a in arcs)
         if out[0] == "err" and err_kind(out) == "KeyError" and terminal_isolated:
             suffix = ":sink_without_arcs"
         ok = verdict(ctx, fn, suffix, case, out, reply, ichks[0], problems[0], rep)
@@ -883,8 +893,8 @@ def judge(ctx, case, out, tout, meta, reply):
             trep = {"case": {"fn": "network_simplex", "n": len(idx), "arcs": meta[1], "supplies": None, "from": case},
                     "impl": tout, "model": rep["model"], "arcs_indexed": arcs}
             sup = [0] * len(idx)
-            sup[idx[case["source"]]] += case["demand"]
-            sup[idx[case["sink"]]] -= case["demand"]
+            sup[idx[fc.dec(case["source"])]] += case["demand"]
+            sup[idx[fc.dec(case["sink"])]] -= case["demand"]
             trep["case"]["supplies"] = sup
             tok = verdict(ctx, "network_simplex", ns_suffix(meta[1], tout), trep["case"], tout, reply, ichks[1], problems[1], trep)
             ctx.count("network_simplex:cases")
